@@ -32,6 +32,9 @@ def random_spec(rng, big=False):
         "near_wrap": rng.random() < 0.4,
         "meta": rng.random() < 0.5,
         "x_form": rng.random() < 0.5,
+        # a lone send/receive pair early (a group that can never be judged complete) and a complete group more
+        # than 20 s of trace time later: flow detection drops the stale group in-stream (crosses 2^32 wraps)
+        "stale": rng.random() < 0.3,
     }
 
 
@@ -54,6 +57,15 @@ def build(spec):
             for k in range(spec["kernels"] + 1):
                 t = sc.kernel(rk, f"mm_{k}", t + 3)
             ranks.append(rk)
+    if spec.get("stale") and len(ranks) == 2:      # with more ranks mp_sync demands every rank in every group
+        cg = "AllReduce_all_reduce_90"
+        sync = f"{cg}_s0_r1_0"
+        ranks[0].dev_event(f"SenRdmaSend_900 [sync={sync}] DmaO", sc.TID_SEND, [40, 40, 50, 50, 60],
+                           {"Bytes": "64", "CollGroup": cg, "Peer": "1", "Type": "SingleCast"})
+        ranks[1].dev_event(f"SenRdmaReceive_910 [64B] [sync={sync}] DmaI", sc.TID_RECV, [40, 60, 61, 61, 62],
+                           {"Bytes": "64", "CollGroup": cg, "Peer": "0", "Type": "WDone Barrier"})
+        t_late = max(e[1]["ts"] for rk in ranks for e in rk.events) - HOST_EPOCH + 25_000_000.0
+        sc.chain_allreduce(ranks, 91, t_late, 91000)
     slices = []
     files = {}
     for rk in ranks:
